@@ -752,6 +752,25 @@ fn scan<'tcx>(tcx: TyCtxt<'tcx>, crate_name: &str) -> J {
                 v.push(("parent", J::s(qual_name(tcx, parent))));
             }
         }
+        // trait bounds on type parameters (own + inherited), for resolving calls made on a type parameter
+        {
+            let mut bounds: Vec<J> = vec![];
+            let owner = if matches!(kind, DefKind::Closure) { tcx.typeck_root_def_id(did) } else { did };
+            let preds = tcx.predicates_of(owner).instantiate_identity(tcx);
+            for cl in preds.predicates.iter() {
+                let cl = cl.skip_norm_wip();
+                if let ty::ClauseKind::Trait(tp) = cl.kind().skip_binder() {
+                    let st = tp.self_ty();
+                    if let ty::Param(pt) = st.kind() {
+                        bounds.push(J::obj(vec![
+                            ("param", J::s(pt.name.to_string())),
+                            ("trait", J::s(def_str(tcx, tp.def_id()))),
+                        ]));
+                    }
+                }
+            }
+            v.push(("bounds", J::Arr(bounds)));
+        }
         v.push(("body", cx.body_json(ldid, body)));
         fns.push(J::obj(v));
     }
